@@ -101,6 +101,7 @@ def shape_classes(eoe):
     p.add_class_arguments(zoo.SubB, "grp")
     p.add_argument("--tp", type=type)
     p.add_argument("--kw", type=zoo.WithDictKwargs)
+    p.add_argument("--ud", type=Union[dict, zoo.Base])  # a mapping that looks like a class spec may be just a mapping
     p.add_argument("--fac", type=Callable[[int], zoo.Base])  # a callable returning an instance: given as a class spec too
     p.add_argument("--facs", type=List[Callable[[int], zoo.Base]])
     p.add_argument("--dec", type=__import__("decimal").Decimal)
@@ -227,7 +228,24 @@ def gen_value_for(rng, fx, shape, key):
     return gen_value(rng, fx)
 
 
+CLASS_SEQUENCES = [
+    # one option given several times on one command line: a class (or what looks like one), its sub-options, another class
+    ['--ud={"class_path": "not.importable", "init_args": {"a": 1}}', "--ud=SubA"],
+    ['--ud={"class_path": "vf.fixtures.zoo.SubA", "init_args": {"a": 1}}', "--ud=SubB"],
+    ['--ud={"init_args": {"a": 1}}', "--ud=vf.fixtures.zoo.SubA", "--ud.a=x"],
+    ["--sub=SubA", "--sub.b=k", "--sub=SubB"], ["--sub=SubA", "--sub.a=2", "--sub=SubReq"], ["--sub=SubB", "--sub.c=0.5", "--sub=Base"],
+    ["--osub=SubA", "--osub.a=2", "--osub=null", "--osub.a=3"], ["--osub=SubList", "--osub.items=[1]", "--osub=SubA"],
+    ["--fac=SubA", "--fac.b=q", "--fac=SubB"], ["--fac=SubReq", "--fac.a=1", "--fac=Base"], ["--kw=WithDictKwargs", "--kw.dict_kwargs.z=1", "--kw=WithDictKwargs"],
+    ["--holder=Holder", "--holder.child=SubA", "--holder.child.b=w", "--holder.child=SubB"],
+]
+
+
 def gen_argv(rng, shape, fx):
+    if shape == "classes" and rng.random() < 0.08:
+        seq = list(rng.choice(CLASS_SEQUENCES))
+        if rng.random() < 0.3:
+            seq.insert(rng.randrange(len(seq) + 1), rng.choice(["--print_config", "--zz=1", "--sub.zz=1"]))
+        return seq, ["crafted:class-sequence:" + seq[0].split("=")[0].lstrip("-")]
     n = rng.choice([1, 1, 2, 2, 3, 4, 6])
     argv, classes = [], []
     for _ in range(n):
